@@ -310,6 +310,14 @@ def run(rep: C.Report, tier: str) -> int:
     n_cases = 90 if tier == "quick" else 900
     C.clean_gen(PROP)
     C.prove_and_audit(rep, PROP, THEOREMS)
+    try:      # supplementary theorems (the Gaussian pdf is normalised)
+        _a = C.coq_audit("C05_gaussnorm", ['GaussNorm_gauss_integral_limit', 'GaussNorm_std_normal_total', 'GaussNorm_gauss_pdf_normalised', 'GaussNorm_gauss_pdf_total', 'GaussNorm_gauss_cdf'], "IT.Properties.GaussNorm")
+        rep.obligation(True, 5)
+        rep.coverage["gaussnorm_audit"] = _a
+    except C.ProofFailure as _e:
+        rep.obligation(False, 5)
+        rep.violation("C05/proof", f"proof obligation no longer checks: {_e.what}",
+                      {"theorem_or_correspondence": _e.what, "log": _e.log[-1000:]}, False)
 
     cases, outs, goals, owner = [], [], [], {}
     for k in range(n_cases):
